@@ -1523,3 +1523,6 @@ impl ser::SerializeStructVariant for ValueSerializeVariant<ValueSerializeMap> {
         Ok(Value::Table(table))
     }
 }
+
+#[cfg(kani)]
+include!(concat!(env!("TOML_VERIF_KANI"), "/toml/value.rs"));
